@@ -3,7 +3,7 @@
    specification (headers, versions, streams) in Proofs/XfrSpec.v. *)
 From DV Require Import Base.Prelude Model.XfrM Proofs.XfrSpec.
 From DV Require Proofs.XfrZone Proofs.XfrDiff.
-From DV Require Proofs.XfrSafety Proofs.XfrBasic Proofs.XfrIxfr Proofs.XfrAxfr Proofs.XfrFault Proofs.XfrOrder Proofs.XfrRefresh Proofs.XfrGlue Proofs.XfrTsig Proofs.XfrSections Proofs.XfrGroup Proofs.XfrSoaFaults Proofs.XfrTsigLink Proofs.XfrAddStart Proofs.XfrBody Proofs.XfrGeneral Proofs.XfrGeneralAxfr Proofs.XfrLegacy Proofs.XfrGeneralOrder.
+From DV Require Proofs.XfrSafety Proofs.XfrBasic Proofs.XfrIxfr Proofs.XfrAxfr Proofs.XfrFault Proofs.XfrOrder Proofs.XfrRefresh Proofs.XfrGlue Proofs.XfrTsig Proofs.XfrSections Proofs.XfrGroup Proofs.XfrSoaFaults Proofs.XfrTsigLink Proofs.XfrAddStart Proofs.XfrBody Proofs.XfrGeneral Proofs.XfrGeneralAxfr Proofs.XfrLegacy Proofs.XfrGeneralOrder Proofs.XfrInversion.
 From DV Require Model.TsigM.
 From Coq Require Import Sorting.Permutation.
 
@@ -883,3 +883,50 @@ Example ex_legacy_runs :
                mkW 0 [] [mkRR 0 1 2 0 3600 2; soa_rr ex_v2]; mkW 0 [] [mkRR 5 1 1 0 1 1]]
   = Ok [(soakey, (600, [v_soa ex_v2])); ((0, 2, 0), (3600, [2; 3])); ((2, 16, 0), (0, [9])); ((-1, 1, 0), (300, [7]))].
 Proof. vm_compute. reflexivity. Qed.
+
+
+(* ==== inversion: what a COMPLETED transfer implies about the stream that was read (vocabulary wire_rec: apex
+        SOA records of class IN, ordinary in-zone records, out-of-zone records) ==== *)
+Theorem ixfr_done_is_denotation : forall fin z0 ser ws rest z' n,
+  XfrZone.quiet z0 -> ttl_ok (v_ttl fin) -> v_serial fin <> ser -> serial_lt (v_serial fin) ser = false ->
+  chunking tIXFR (soa_rr fin :: rest) ws -> Forall XfrInversion.wire_rec rest ->
+  match rest with x :: _ => exists b, x = soa_rr b /\ ttl_ok (v_ttl b) | [] => True end ->
+  inbound_xfr z0 tIXFR (Some ser) false ws = (Done z', n) ->
+  exists secs z1 b extra,
+    rest = XfrSections.secs_stream secs ++ soa_rr b :: extra /\ secs <> [] /\ XfrSections.skel_ok ser fin secs /\
+    XfrSections.end_serial ser secs = v_serial fin /\ v_soa b = v_soa fin /\ XfrSections.apply_secs z0 secs = Some z1 /\
+    z' = zput soakey (v_ttl b, [v_soa b]) z1.
+Proof. exact XfrInversion.ixfr_done_is_denotation. Qed.
+Print Assumptions ixfr_done_is_denotation.
+
+Theorem axfr_style_done_is_denotation : forall fin z0 ser ws x rest z' n,
+  ttl_ok (v_ttl fin) -> v_serial fin <> ser -> serial_lt (v_serial fin) ser = false ->
+  chunking tIXFR (soa_rr fin :: x :: rest) ws -> XfrGlue.okrec x -> Forall XfrInversion.wire_rec rest ->
+  inbound_xfr z0 tIXFR (Some ser) false ws = (Done z', n) ->
+  exists B b extra,
+    x :: rest = B ++ soa_rr b :: extra /\ B <> [] /\ Forall XfrGlue.okrec B /\ v_soa b = v_soa fin /\
+    z' = zput soakey (v_ttl b, [v_soa b]) (XfrDiff.adds [] (XfrGlue.erase B)).
+Proof. exact XfrInversion.axfr_style_done_is_denotation. Qed.
+Print Assumptions axfr_style_done_is_denotation.
+
+Theorem axfr_done_is_denotation : forall fin z0 ser ws rest z' n,
+  chunking tAXFR (soa_rr fin :: rest) ws -> Forall XfrInversion.wire_rec rest ->
+  inbound_xfr z0 tAXFR ser false ws = (Done z', n) ->
+  exists B b extra,
+    rest = B ++ soa_rr b :: extra /\ Forall XfrGlue.okrec B /\ v_soa b = v_soa fin /\
+    zeq z' (zput soakey (v_ttl b, [v_soa b]) (XfrDiff.adds [] (XfrGlue.erase B))).
+Proof. exact XfrInversion.axfr_done_is_denotation. Qed.
+Print Assumptions axfr_done_is_denotation.
+
+(* the single-fault lemma in its strongest form *)
+Theorem ixfr_outcome_dichotomy : forall fin z0 ser ws rest,
+  XfrZone.quiet z0 -> ttl_ok (v_ttl fin) -> v_serial fin <> ser -> serial_lt (v_serial fin) ser = false ->
+  chunking tIXFR (soa_rr fin :: rest) ws -> Forall XfrInversion.wire_rec rest ->
+  match rest with x :: _ => exists b, x = soa_rr b /\ ttl_ok (v_ttl b) | [] => True end ->
+  (exists e n, inbound_xfr z0 tIXFR (Some ser) false ws = (Error e z0, n)) \/
+  (exists secs z1 b extra n,
+     inbound_xfr z0 tIXFR (Some ser) false ws = (Done (zput soakey (v_ttl b, [v_soa b]) z1), n) /\
+     rest = XfrSections.secs_stream secs ++ soa_rr b :: extra /\ secs <> [] /\ XfrSections.skel_ok ser fin secs /\
+     XfrSections.end_serial ser secs = v_serial fin /\ v_soa b = v_soa fin /\ XfrSections.apply_secs z0 secs = Some z1).
+Proof. exact XfrInversion.ixfr_outcome_dichotomy. Qed.
+Print Assumptions ixfr_outcome_dichotomy.
